@@ -196,6 +196,17 @@ func driverConc(c *Ctx) {
 		c.emit(i, J{"ev": "begin", "variant": 0, "calls": cj})
 		c.out.Flush()
 		s := newShared()
+		// observers are cheap: many more rounds for configurations made of observers only
+		rounds := rounds
+		cheap := true
+		for _, x := range cs {
+			if x.Op != "String" && x.Op != "ToBytes" && x.Op != "Variables" && x.Op != "Size" && x.Op != "Header" {
+				cheap = false
+			}
+		}
+		if cheap {
+			rounds *= 12
+		}
 		got := make([][]string, rounds)
 		for r := 0; r < rounds; r++ {
 			got[r] = make([]string, len(cs))
@@ -212,10 +223,15 @@ func driverConc(c *Ctx) {
 			close(gate)
 			wg.Wait()
 		}
-		// the same calls alone (after the concurrent phase, on the same shared objects)
+		// the same calls alone: on a twin of the shared objects that no goroutine has touched (the reference), and after
+		// the concurrent phase on the shared objects themselves (damage that stays would show in both the concurrent
+		// and the later answers, but not in the twin's)
+		twin := newShared()
 		solo := make([]string, len(cs))
+		after := make([]string, len(cs))
 		for k := range cs {
-			solo[k] = s.exec(cs[k], fmt.Sprintf("_%d_solo_%d", i, k))
+			solo[k] = twin.exec(cs[k], fmt.Sprintf("_%d_solo_%d", i, k))
+			after[k] = s.exec(cs[k], fmt.Sprintf("_%d_after_%d", i, k))
 		}
 		bad := -1
 		for r := 0; r < rounds && bad < 0; r++ {
@@ -229,7 +245,7 @@ func driverConc(c *Ctx) {
 		if bad >= 0 {
 			show = got[bad]
 		}
-		c.emit(i, J{"ev": "conc", "variant": 1, "calls": cj, "solo": solo, "got": show, "rounds": rounds, "outcome": "returned"})
+		c.emit(i, J{"ev": "conc", "variant": 1, "calls": cj, "solo": solo, "got": show, "after": after, "rounds": rounds, "outcome": "returned"})
 		c.out.Flush()
 		c.count("conc.configs")
 	}
@@ -301,7 +317,7 @@ func driverConcCold(c *Ctx) {
 				delete(last, "variant")
 				last["attempt"] = a
 				out[j] = last
-				if fmt.Sprint(last["got"]) != fmt.Sprint(last["solo"]) {
+				if fmt.Sprint(last["got"]) != fmt.Sprint(last["solo"]) || fmt.Sprint(last["after"]) != fmt.Sprint(last["solo"]) {
 					return
 				}
 			}
